@@ -266,15 +266,21 @@ func (m *machine) fail(class, detail string) {
 	if m.cs.Part == "saved" {
 		size += 10000000 + m.cs.D // prefer plain histories as witnesses of classes both families reach
 	}
+	// the witness is the history up to the failing step
+	cc := *m.cs
+	cc.From = 0
+	nst := m.step
+	if nst > len(m.cs.Steps) {
+		nst = len(m.cs.Steps)
+	}
+	cc.Steps = append([]Step(nil), m.cs.Steps[:nst]...)
 	// deterministic tie-break between equally small witnesses found by different workers
-	if js, err := json.Marshal(m.cs); err == nil {
+	if js, err := json.Marshal(cc); err == nil {
 		h := fnv.New32a()
 		h.Write(js)
 		size = size*1024 + int(h.Sum32()%1024)
 	}
 	rep.FailLazy(class, size, func() engine.Failure {
-		cc := *m.cs
-		cc.Steps = append([]Step(nil), m.cs.Steps...)
 		return engine.Failure{Detail: fmt.Sprintf("%s ids=%s place=%s step %d (distinct values so far %d): %s", m.k.name, m.cs.IDs, m.cs.Place, m.step, len(m.used), detail), Case: cc}
 	})
 }
